@@ -402,9 +402,13 @@ Section Norm.
 
   Lemma s_or_ok a b : wsort a = true -> wsort b = true -> ok (s_or a b) (eval_op2 OR (ev a) (ev b)).
   Proof.
-    start2 s_or. brk; facts; [by_lemma or_0_l|]. brk; facts; [by_lemma or_diag|].
+    start2 s_or. brk; facts; [by_lemma or_0_l|].
+    brk; facts.
+    { unfold ok. split; [apply inw_constw; pose proof W_pos; unfold inw; lia|].
+      cbn [evalw eval_op1 eval_op2]. symmetry. apply or_ones_l. apply (inw_ev _ Hb). }
+    brk; facts; [by_lemma or_diag|].
     brk.
-    { apply orb_true_iff in E1. destruct E1 as [E1|E1]; facts.
+    { apply orb_true_iff in E2. destruct E2 as [E2|E2]; facts.
       - unfold ok. split; [apply inw_constw; pose proof W_pos; unfold inw; lia|].
         cbn [evalw eval_op1 eval_op2]. symmetry. apply or_not_self. exact Wa.
       - unfold ok. split; [apply inw_constw; pose proof W_pos; unfold inw; lia|].
